@@ -1069,6 +1069,16 @@ func DebugEnum(name, tier, self string) {
 	if c.broken != "" {
 		fmt.Println("  BROKEN:", c.broken)
 	}
+	if os.Getenv("VERIF_SHOW_OUTCOMES") != "" {
+		keys := []string{}
+		for k := range c.nontrivialKeys {
+			keys = append(keys, k)
+		}
+		sort.Strings(keys)
+		for _, k := range keys {
+			fmt.Println("  outcome:", k)
+		}
+	}
 }
 
 // globMatch matches s against a pattern in which '*' stands for any (possibly empty) substring.
